@@ -152,10 +152,10 @@ def b_kl(a, fn=None):
 
 
 @st.composite
-def feat_args(draw, max_t=40):
-    T = draw(st.integers(1, max_t))
-    fx = draw(st.integers(1, 4))
-    fy = draw(st.integers(1, 4))
+def feat_args(draw, max_t=40, min_t=1, max_f=4):
+    T = draw(st.integers(min_t, max_t))
+    fx = draw(st.integers(1, max_f))
+    fy = draw(st.integers(1, max_f))
     nx = draw(st.integers(2, 5))
     ny = draw(st.integers(2, 5))
     return {"T": T, "fx": fx, "fy": fy, "nx": nx, "ny": ny, "seed": draw(st.integers(0, 2 ** 31 - 1)),
@@ -358,8 +358,8 @@ def b_paths(a):
 
 
 @st.composite
-def points_args(draw):
-    n = draw(st.integers(3, 40))
+def points_args(draw, max_n=40, min_n=3):
+    n = draw(st.integers(min_n, max_n))
     return {"n": n, "d": draw(st.integers(1, 4)), "seed": draw(st.integers(0, 2 ** 31 - 1)),
             "k": draw(st.integers(1, min(n, 6))), "metric": draw(st.sampled_from(["euclidean", "manhattan"])),
             "n_iters": draw(st.integers(1, 3)), "rs": draw(st.integers(0, 10 ** 6)),
@@ -462,6 +462,48 @@ def b_counts(a):
     return (lambda: tm.assigns_to_counts(A, a["lag"], max_n_states=a["n_states"], sliding_window=a["sliding"])), [d0]
 
 
+@st.composite
+def ragged_idx_args(draw):
+    n = draw(st.integers(1, 5))
+    lens = [draw(st.integers(1, 5)) for _ in range(n)]
+    k = draw(st.integers(1, 4))
+    rows = [draw(st.integers(-n, n - 1)) for _ in range(k)]
+    cols = [draw(st.integers(-lens[r], lens[r] - 1)) for r in rows]
+    return {"lens": lens, "rows": rows, "cols": cols, "seed": draw(st.integers(0, 2 ** 31 - 1)),
+            "form": draw(st.sampled_from(["pairs", "row_int", "col_int"]))}
+
+
+def _ragged_idx(a):
+    r = rs(a["seed"])
+    A = ra.RaggedArray([r.randint(1, 9, size=L).astype(float) for L in a["lens"]])
+    if a["form"] == "pairs":
+        ii, jj = np.array(a["rows"]), np.array(a["cols"])
+    elif a["form"] == "row_int":
+        L = a["lens"][a["rows"][0]]
+        ii, jj = a["rows"][0], np.array([c % L - (L if c < 0 else 0) for c in a["cols"]])
+    else:
+        m = min(a["lens"][r] for r in a["rows"])
+        ii, jj = np.array(a["rows"]), (a["cols"][0] % m) - (m if a["cols"][0] < 0 else 0)
+    return A, ii, jj
+
+
+def b_ragged_fancy_read(a):
+    A, ii, jj = _ragged_idx(a)
+    ins = [A._data] + [x for x in (ii, jj) if isinstance(x, np.ndarray)]
+    return (lambda: A[(ii, jj)]), ins
+
+
+def b_ragged_fancy_write(a):
+    A, ii, jj = _ragged_idx(a)
+    ins = [x for x in (ii, jj) if isinstance(x, np.ndarray)]      # A itself is documented to change
+
+    def f():
+        B = ra.RaggedArray([np.asarray(r).copy() for r in A])
+        B[(ii, jj)] = 0.5
+        return B
+    return f, ins
+
+
 ROUTINES = {
     "shannon_entropy": (prob_args(), b_shannon),
     "kl_divergence": (kl_args(), b_kl),
@@ -495,11 +537,18 @@ ROUTINES = {
     "libdist.manhattan": (points_args(), b_dist("manhattan")),
     "libdist.hamming": (points_args(), b_dist("hamming")),
     "ragged_operator": (ragged_args(), b_ragged),
+    "ragged_fancy_read": (ragged_idx_args(), b_ragged_fancy_read),
+    "ragged_fancy_write": (ragged_idx_args(), b_ragged_fancy_write),
+    "joint_counts_long": (feat_args(max_t=30000, min_t=5000, max_f=2), b_joint_counts),
+    "joint_counts_self_long": (feat_args(max_t=30000, min_t=5000, max_f=2), b_joint_counts_self),
+    "libdist.euclidean_long": (points_args(max_n=60000, min_n=20000), b_dist("euclidean")),
+    "libdist.hamming_long": (points_args(max_n=60000, min_n=20000), b_dist("hamming")),
     "_rotamers": (angle_args(), b_rotamers),
     "transitions": (angle_args(), b_transitions),
     "assigns_to_counts": (assigns_args(), b_counts),
 }
-THREADED = {"joint_counts", "joint_counts_self", "mi_matrix", "libdist.euclidean", "libdist.manhattan", "libdist.hamming",
+LONG = ["joint_counts_long", "joint_counts_self_long", "libdist.euclidean_long", "libdist.hamming_long"]
+THREADED = {"joint_counts_long", "joint_counts_self_long", "libdist.euclidean_long", "libdist.hamming_long", "joint_counts", "joint_counts_self", "mi_matrix", "libdist.euclidean", "libdist.manhattan", "libdist.hamming",
             "assign_to_nearest_center", "kcenters", "kmedoids", "hybrid", "builders.mle"}
 
 
@@ -511,7 +560,7 @@ def routine_case(names):
         npre = draw(st.integers(0, 3))
         prefix = []
         for _ in range(npre):
-            pn = draw(st.sampled_from(sorted(ROUTINES)))
+            pn = draw(st.sampled_from(sorted(r for r in ROUTINES if r not in LONG)))
             prefix.append([pn, draw(ROUTINES[pn][0])])
         return {"routine": name, "args": args, "prefix": prefix,
                 "threads": draw(st.sampled_from(THREADS)),
@@ -560,7 +609,8 @@ def run_case(case):
                 plain=describe(base), poisoned=describe(got), sites=sorted(rec.sites))
         require(snapshot(ins3) == b3, "routine %s modified an array passed to it (under fill)" % name)
     # (c) threads
-    for t in sorted(set([case["threads"], 1])):
+    tlist = sorted(set([case["threads"], 1])) if name not in LONG else [1, 2, 5, 16, 16, 7]
+    for t in tlist:
         t4, _ = build(args)
         with threadpool_limits(limits=t, user_api="openmp"):
             got = outcome(t4)
@@ -599,7 +649,8 @@ MASKED = ["shannon_entropy", "mutual_information", "mi_matrix", "weighted_mi", "
 
 CLAUSES = [
     Clause("masked_sites", routine_case(MASKED), run_case, quick=240, thorough=4000),
-    Clause("all_routines", routine_case(sorted(ROUTINES)), run_case, quick=500, thorough=12000),
+    Clause("all_routines", routine_case(sorted(r for r in ROUTINES if r not in LONG)), run_case, quick=500, thorough=12000),
+    Clause("threads_long_inputs", routine_case(LONG), run_case, quick=24, thorough=400),
     Clause("ast_denominator", st.just({"ast": True}), run_denominator, quick=4, thorough=16),
 ]
 MATCHERS = {}
